@@ -180,6 +180,11 @@ class BLOB(Element):
     set_message_class = one_parts.OneBLOB
     allowed_value_types = (values.BLOB,) + Element.allowed_value_types
 
+    def to_def_message(self):
+        return self.def_message_class(
+            name=self._definition.name, label=self._definition.label
+        )
+
     def to_set_message(self):
         if self.value is None:
             return self.set_message_class(
